@@ -33,6 +33,11 @@ ASSUMPTIONS = [
     "CLEAR_FEATURE(ENDPOINT_HALT) with wIndex 0x04 / 0x84 is accepted and restarts the data toggle of exactly the data OUT / IN endpoint (the host "
     "then sends / expects DATA0 there); any other endpoint address changes nothing on endpoint 4.  Host histories issue it, GET_STATUS, "
     "SET_LINE_CODING, SET_CONTROL_LINE_STATE and GET_DESCRIPTOR between bulk packets at every toggle phase (directed _scn_toggles + random)",
+    "lost handshakes: host histories withhold the ACK of a bulk IN data packet, or treat the device's ACK of a bulk OUT packet as lost, then run "
+    "0..2 transactions on other pipes that carry handshakes of their own (SET_LINE_CODING, SET_CONTROL_LINE_STATE, GET_LINE_CODING, GET_DESCRIPTOR, "
+    "GET_STATUS, GET_CONFIGURATION, CLEAR_FEATURE, notification-endpoint poll, SOF) and only then retry; the observer is the conformant host: the "
+    "repeated IN packet must be the same bytes with the same toggle (anything else is a failure: a conformant host would drop it as a duplicate and "
+    "the bytes would be lost), the repeated OUT packet must be ACKed and not delivered twice (directed _scn_lost_handshakes + random)",
     "safety only for the byte streams: order, no loss in the middle, no duplication, nothing from refused packets; that the last bytes are "
     "eventually delivered is not expressible in a cycle observer and is not checked",
     "complete-device targets use a raw UTMI bus (full speed, 12 MHz constants); no ULPI/high speed",
@@ -216,16 +221,27 @@ def serial_script(rng, mps, prod, flavour, tab):
                 prod.push([rng.randrange(256) for _ in range(n)], last=(rng.random() < 0.8))
                 await h.idle(rng.choice([0, 5, n + 10]))
             for _ in range(rng.randint(1, 4)):
-                await h.in_txn(4, handshake=(None if rng.random() < 0.12 else PID_ACK))
+                withheld = rng.random() < 0.2
+                p = await h.in_txn(4, handshake=(None if withheld else PID_ACK))
+                if withheld and p is not None and p[0] == 'data':
+                    # the packet "arrived damaged": no ACK; the host serves other pipes (with their own ACKs) before it retries
+                    for _ in range(rng.randint(0, 2)):
+                        await other_ack_txn(h, rng)
+                    await h.in_txn(4)
         elif r < 0.86:       # host -> device bytes
-            pid = h.out_pid
             for _ in range(rng.randint(1, 3)):
+                pid = h.out_pid
                 pl = [rng.randrange(256) for _ in range(rng.choice([0, 1, mps - 1, mps, rng.randint(0, mps)]))]
                 wrong = rng.random() < 0.08
                 res = await h.out_txn(4, pl, data_pid=(pid ^ 0x8 if wrong else pid), corrupt=(rng.random() < 0.1))
                 if res == ('hs', PID_ACK) and not wrong:
-                    pid = PID_DATA1 if pid == PID_DATA0 else PID_DATA0
-            h.out_pid = pid
+                    if rng.random() < 0.15:
+                        # the device's ACK "is lost": other traffic, then the host retransmits the same packet with the same toggle
+                        for _ in range(rng.randint(0, 2)):
+                            await other_ack_txn(h, rng, clear_out=False)
+                        await h.out_txn(4, pl, data_pid=pid)
+                    if h.out_pid == pid:      # (a CLEAR_FEATURE on 0x04 in between has already restarted the toggle)
+                        h.out_pid = PID_DATA1 if pid == PID_DATA0 else PID_DATA0
         elif r < 0.90:
             await h.in_txn(3)
         elif r < 0.93:
@@ -258,6 +274,61 @@ async def clear_halt(h, windex):
     if r == 'ok' and (windex & 0x8F) == 0x04:
         h.out_pid = PID_DATA0
     return r
+
+
+async def other_ack_txn(h, rng, kind=None, clear_out=True):
+    """a transaction on another pipe that contains handshakes (the device's ACK of a SETUP / OUT packet, the host's ACK of a device
+    data packet): none of them may be taken for the handshake of a bulk transaction that is still open"""
+    kinds = ["set_line_coding", "set_control_line_state", "get_line_coding", "get_descriptor", "get_status", "get_config",
+             "clear_other", "clear_in_other_ep", "poll_status_ep", "sof"] + (["clear_out"] if clear_out else [])
+    kind = kind or rng.choice(kinds)
+    if kind == "set_line_coding": await h.control_out(0x21, 0x20, 0, 0, [0x80, 0x25, 0, 0, 0, 0, 8])
+    elif kind == "set_control_line_state": await h.control_out(0x21, 0x22, rng.randrange(4), 0)
+    elif kind == "get_line_coding": await h.control_in(0xA1, 0x21, 0, 0, 7)
+    elif kind == "get_descriptor": await h.control_in(0x80, 6, rng.choice([0x0100, 0x0200, 0x0300]), 0, rng.choice([8, 18, 64]))
+    elif kind == "get_status": await h.control_in(rng.choice([0x80, 0x82]), 0, 0, 0, 2)
+    elif kind == "get_config": await h.control_in(0x80, 8, 0, 0, 1)
+    elif kind == "clear_other": await clear_halt(h, 0x83)
+    elif kind == "clear_in_other_ep": await clear_halt(h, rng.choice([0x81, 0x00, 0x8F]))
+    elif kind == "clear_out": await clear_halt(h, 0x04)
+    elif kind == "poll_status_ep": await h.in_txn(3)
+    else: await h.send_packet(sof_bytes(rng.randrange(2048)))
+
+
+def _scn_lost_handshakes(prod, mps):
+    """A handshake is lost and the retry comes only after other pipes have been served (seeded/C57_3): the host withholds the ACK of a
+    bulk IN data packet (as if it had arrived damaged), completes transfers of every kind on the other pipes -- each with ACKs of its
+    own --, then repeats the IN: the device must repeat the SAME packet with the SAME toggle, and the following packet carries the next
+    bytes.  Likewise the device's ACK of a bulk OUT packet is 'lost': the host retransmits it with the same toggle, the device must ACK
+    and deliver it only once."""
+    import random as _r
+    async def script(h):
+        rng = _r.Random(57)
+        h.out_pid = PID_DATA0
+        await h.idle(3)
+        cnt = 0
+        for kind in ["set_line_coding", "set_control_line_state", "get_descriptor", "get_status", "clear_other", "poll_status_ep",
+                     "get_line_coding", "get_config", "sof", None]:
+            prod.push([(0x40 + cnt + j) & 0xff for j in range(3)]); cnt += 3
+            await h.idle(10)
+            await h.in_txn(4, handshake=None)                 # message A received, ACK withheld
+            if kind: await other_ack_txn(h, rng, kind)
+            await h.in_txn(4)                                 # retry: message A again, now ACKed
+            prod.push([(0x40 + cnt + j) & 0xff for j in range(2)]); cnt += 2
+            await h.idle(10)
+            await h.in_txn(4)                                 # message B
+            pl = [(cnt + j) & 0xff for j in range(3)]; cnt += 3
+            pid = h.out_pid
+            await h.out_txn(4, pl, data_pid=pid)              # ACKed, but the ACK is "lost"
+            if kind: await other_ack_txn(h, rng, kind)
+            await h.out_txn(4, pl, data_pid=pid)              # retransmission: ACK, no second delivery
+            h.out_pid = PID_DATA1 if pid == PID_DATA0 else PID_DATA0
+            pl = [(cnt + j) & 0xff for j in range(2)]; cnt += 2
+            r = await h.out_txn(4, pl, data_pid=h.out_pid)
+            if r == ('hs', PID_ACK):
+                h.out_pid = PID_DATA1 if h.out_pid == PID_DATA0 else PID_DATA0
+        await h.idle(3 * mps + 20)
+    return script
 
 
 def _scn_toggles(prod, mps):
@@ -369,7 +440,7 @@ def _scn_backpressure(prod, mps):
     return script
 
 
-DIRECTED = [_scn_enum, _scn_stall_nodata, _scn_stall_outdata, _scn_bytes, _scn_backpressure, _scn_toggles]
+DIRECTED = [_scn_enum, _scn_stall_nodata, _scn_stall_outdata, _scn_bytes, _scn_backpressure, _scn_toggles, _scn_lost_handshakes]
 
 
 def serial_traces(t, rng, tier):
